@@ -103,6 +103,32 @@ def categoric_summary(prog, fn):
     # matrix indexing
     idx = [n for n in ast.walk(fn.node) if isinstance(n, ast.Subscript) and unparse(n.value) == "self.contrast_matrix.matrix" and isinstance(n.ctx, ast.Load)]
     F["matrix_index_sites"] = len(idx)
+    # every index into the remembered contrast matrix derives (through copies only) from codes taken w.r.t. the remembered levels
+    defs = {}
+    for st in walk_local(fn.node):
+        if isinstance(st, ast.Assign) and len(st.targets) == 1 and isinstance(st.targets[0], ast.Name):
+            defs.setdefault(st.targets[0].id, []).append(st.value)
+
+    def from_remembered(e, depth=0):
+        if depth > 6:
+            return False
+        if isinstance(e, ast.Attribute) and e.attr == "codes" and isinstance(e.value, ast.Call) and dotted(e.value.func) == "pd.Categorical":
+            n = e.value
+            return [unparse(k.value) for k in n.keywords if k.arg == "categories"] == ["self.levels"] and bool(n.args) and unparse(n.args[0]) == x
+        if isinstance(e, ast.Call) and dotted(e.func) in ("np.copy", "np.array", "np.asarray") and e.args:
+            return from_remembered(e.args[0], depth + 1)
+        if isinstance(e, ast.Call) and isinstance(e.func, ast.Attribute) and e.func.attr in ("copy", "to_numpy", "astype") and not isinstance(e.func.value, ast.Name):
+            return from_remembered(e.func.value, depth + 1)
+        if isinstance(e, ast.Call) and isinstance(e.func, ast.Attribute) and e.func.attr in ("copy", "to_numpy", "astype") and isinstance(e.func.value, ast.Name):
+            return from_remembered(e.func.value, depth + 1)
+        if isinstance(e, ast.Name) and e.id in defs:
+            return all(from_remembered(d, depth + 1) for d in defs[e.id])
+        if isinstance(e, ast.IfExp):
+            return from_remembered(e.body, depth + 1) and from_remembered(e.orelse, depth + 1)
+        return False
+
+    F["matrix_indices_from_remembered_levels"] = bool(idx) and all(from_remembered(n.slice) for n in idx)
+    S["foreign_index"] = [unparse(n.slice) for n in idx if not from_remembered(n.slice)]
     # config comparisons
     lits = {}
     for i in walk_local(fn.node):
@@ -450,6 +476,22 @@ def ownership_rule(prog, rep, rule, which=("Term", "GroupSpecificTerm")):
 # ------------------------------------------------------------------------------------------
 # identity: __eq__ compares every identity field completely (R2.1e, R12.6)
 # ------------------------------------------------------------------------------------------
+_REF_PROG = []
+
+
+def _reference_program():
+    """the snapshot the rules were confirmed on (sa/reference_src), loaded once; None if it is not there"""
+    if not _REF_PROG:
+        import os
+        from ..core import Program, VERIF
+        root = os.path.join(VERIF, "sa", "reference_src")
+        try:
+            _REF_PROG.append(Program(root, normalise=False) if os.path.isdir(os.path.join(root, "formulae")) else None)
+        except Exception:  # noqa: BLE001
+            _REF_PROG.append(None)
+    return _REF_PROG[0]
+
+
 def eq_compares_fields(prog, rep, rule, class_quals, extra_from_str=False):
     from .C02 import _constant_fields, _self_fields
 
@@ -459,6 +501,16 @@ def eq_compares_fields(prog, rep, rule, class_quals, extra_from_str=False):
         if e is None or h is None:
             continue
         fields = _self_fields(h.node) - {"__class__"} - _constant_fields(cls)
+        # the identity fields confirmed on the reference tree stay identity fields: replacing them in BOTH __eq__ and __hash__ by
+        # a derived, lossy summary (a name, a length) would otherwise go unnoticed
+        ref = _reference_program()
+        if ref is not None:
+            rq = q if q.startswith("formulae.") else f"formulae.{q}"
+            rc = ref.classes.get(rq)
+            if rc is not None and "__hash__" in rc.methods:
+                init = cls.methods.get("__init__")
+                assigned = {n.attr for n in ast.walk(init.node) if isinstance(n, ast.Attribute) and isinstance(n.ctx, ast.Store) and is_self_attr(n)} if init else set()
+                fields |= (_self_fields(rc.methods["__hash__"].node) - {"__class__"} - _constant_fields(rc)) & assigned
         if extra_from_str and "__str__" in cls.methods:
             fields |= (_self_fields(cls.methods["__str__"].node) & _self_fields(e.node)) - {"__class__"}
         other = e.params[1]
